@@ -26,14 +26,14 @@ CHECKS = {
              'region, all short strings and token sequences, over every seed of every parsable class (379 classes, '
              '3 entry points + extra parse functions): the call returns or raises a documented error. Bounded: '
              'deviations <= 2 from a seed.'
-             ' Further families: one byte raised to 3f/40/7f/ff with 300 filler octets appended (two fillers), JSON member values replaced by 16 alternatives, every uint32-prefixed SSH algorithm/curve name replaced by every other member of its enumeration.',
+             ' Further families: one byte raised to 3f/40/7f/ff with 300 filler octets appended (two fillers), JSON member values replaced by 16 alternatives, every uint32-prefixed SSH algorithm/curve name replaced by every other member of its enumeration. Every octet-string constant the library defines (and the RFC 8446 downgrade sentinels) written over every seed at every offset; BER spellings (long-form and indefinite lengths) of the LDAP frames as seeds.',
         design='§5 C02'),
     'C03': dict(
         technique='exhaustive enumeration of bounded byte-mutation families + suffix families; multi-entry-point '
                   'differential oracle',
         text='Same bounded input space as C02 plus 9 suffixes per accepted frame; on every buffer the three entry '
              'points are compared (n range, in-place remainder, exact-size iff n==len, buffer untouched on failure) '
-             'and framing units are checked against an independent header reader and for self-delimitation.',
+             'and framing units are checked against an independent header reader and for self-delimitation. Seeds include BER spellings (long-form, indefinite) of the LDAP frames; every registered SSH name and every library-defined constant is substituted into every seed.',
         design='§5 C03'),
     'C04': dict(
         technique='explicit-state BFS over the reader/environment system on the real parse_mutable',
@@ -41,7 +41,7 @@ CHECKS = {
              'bytes delivered) state of every record sequence of length <= 3 (quick) / 4 over a per-layer alphabet, '
              'every delivery the environment may choose after NotEnoughData(k); invariants: no deadlock '
              '(d+k <= end of record in progress), no premature accept, exact reassembly. Plus TLS handshake messages '
-             'cut over records at every set of <= 2-3 positions.',
+             'cut over records at every set of <= 2-3 positions. Records and handshake messages at the 2^14 / 2^15 / 2^16 boundaries of their length fields (handshake payloads up to 70001 octets) at sparse delivery points; LDAP frames with long-form and four-octet BER lengths in the layer alphabet.',
         design='§5 C04'),
     'C05': dict(
         technique='exhaustive enumeration of bounded byte-mutation families, filtered to accepted inputs, with a '
@@ -51,7 +51,7 @@ CHECKS = {
              'non-canonical generators (54 date spellings x 5 classes, TXT partitions, all SCSV placements among <= 3 '
              'suites, all 2^16 DNSKEY flag words, MySQL words with <= 2 flipped bits): compose succeeds, is accepted '
              'again in full, parses to an equal object and composes to the same bytes.'
-             ' Every corpus seed is re-checked under 3-4 non-UTC process time zones, and observed in a pristine interpreter of its own class versus 3 global parse orders over all classes (parse results must not depend on what was parsed before).',
+             ' Every corpus seed is re-checked under 3-4 non-UTC process time zones, and observed in a pristine interpreter of its own class versus 3 global parse orders over all classes (parse results must not depend on what was parsed before). Every registered SSH name substituted into every seed, every library-defined constant at every offset.',
         design='§5 C05'),
     'C06': dict(
         technique='exhaustive enumeration against an independent reference encoder (differential oracle), object '
@@ -62,7 +62,7 @@ CHECKS = {
              'server hello), every suite list of length <= 3 over {known, unknown, GREASE, both SCSVs}, session ids '
              '0..32, ~150 extension bodies alone and in ordered pairs for client and server, certificate chains, '
              'certificate requests with/without signature algorithms, alerts, records, SSL 2.0 records (2/3-byte '
-             'headers, padding 0/1/7): accepted and fields recovered.',
+             'headers, padding 0/1/7): accepted and fields recovered. Every member of the ALPN / NPN / point-format / PSK-mode / compression / certificate-compression code spaces and a key share for every group.',
         design='§5 C06'),
     'C07': dict(
         technique='exhaustive enumeration against an independent reference encoder/decoder (differential oracle)',
@@ -72,7 +72,7 @@ CHECKS = {
              'positions; keys, certificates (every option alone and in ordered pairs, principals 0-3, validity '
              'boundaries, serial boundaries), banner (420 forms) and DH/GEX/disconnect messages: compose == '
              'reference, parse(reference) == fields.'
-             ' Certificates are also edited in place (after a compose) and compared with the equal certificate built by construction; every ECDSA algorithm name x curve identifier blob is parsed and re-composed.',
+             ' Certificates are also edited in place (after a compose) and compared with the equal certificate built by construction; every ECDSA algorithm name x curve identifier blob is parsed and re-composed. Banners of every length 249..259 (parsed and built) and software strings in every letter case; every RFC 3066 language-tag shape; unknown certificate option names next to every known one.',
         design='§5 C07'),
     'C08': dict(
         technique='exhaustive enumeration of RDATA wire forms against an independent reference encoder and key-tag '
@@ -91,7 +91,7 @@ CHECKS = {
              'OpenVPN packet classes x ack arrays of every length 0..255; PostgreSQL; LDAP with every result code: the '
              'reference encoding parses to the TYPE on the wire with the encoded fields, and composing those fields '
              'gives the reference bytes.'
-             ' Every self-delimiting PDU is parsed again with more data behind it; messages built with defaults are compared before and after an earlier instance was edited in place (fresh process per class).',
+             ' Every self-delimiting PDU is parsed again with more data behind it; messages built with defaults are compared before and after an earlier instance was edited in place (fresh process per class). LDAP: every assignment of {minimal, 1, 4} length octets to the TLVs of request and response, and lengths across the DER form boundaries.',
         design='§5 C09'),
     'C10': dict(
         technique='complete enumeration of code spaces through the real decoders and list containers',
@@ -101,7 +101,7 @@ CHECKS = {
              'thorough tier); 27 IntEnum-typed wire fields substituted in place over their whole space; all members, '
              'case spellings and prefix pairs of 28 string-coded enumerations and 5 SSH name-lists; static no-alias '
              'clause over every enumeration. Exact for the 1- and 2-byte spaces.'
-             ' Two-step histories: every ordered pair of code spaces in a fresh process; every suite code inside a client hello composed three times; every member name of the opaque string enumerations with one stray octet must not decode to the member.',
+             ' Two-step histories: every ordered pair of code spaces in a fresh process; every suite code inside a client hello composed three times; every member name of the opaque string enumerations with one stray octet must not decode to the member. Every member name also in other letter cases; the code-point octets of every framing field under every library-defined constant spliced at every offset.',
         design='§5 C10'),
     'C11': dict(
         technique='complete / boundary enumeration of primitive calls against int.to_bytes, under enumerated TZ '
@@ -111,7 +111,7 @@ CHECKS = {
              'out-of-range values must raise InvalidValue; every subset of every wire flag enum and every word of '
              '1-2 byte flag fields; fixed-length mpints [0,2^16] x 7 lengths; SSH mpints [-2^17,2^17] and +-(2^n+-1); '
              'timestamps (4/8 bytes, s/ms, naive/aware/other-zone, sentinel) on a 7-day (1-day thorough) grid '
-             '1970-2106 plus every UTC-offset transition, under 14 TZ settings.',
+             '1970-2106 plus every UTC-offset transition, under 14 TZ settings. The same TZ settings for every message class with a timestamp field (SCT, RRSIG, certificate validity, hello random), composed and parsed.',
         design='§5 C11'),
     'C12': dict(
         technique='explicit-state BFS over edit sequences on real vector objects against a list model',
@@ -120,7 +120,7 @@ CHECKS = {
              'classes, 1-3 from at-maximum / one-below-maximum vectors), states merged by (items, hidden size '
              'counter); per transition the result is compared with a plain list and the bounds, refused edits must '
              'leave the state untouched and use a data-length error; per state compose/prefix/round-trip.'
-             ' Constructor aliasing (vector built from a list / from a vector, every event on either side); vectors with a 2^24-1 maximum approached with one stretched item and the smallest encodable item.',
+             ' Constructor aliasing (vector built from a list / from a vector, every event on either side); vectors with a 2^24-1 maximum approached with one stretched item and the smallest encodable item. Events a plain list refuses (extended slice of another length, positions out of range) must be refused and leave items and size counter unchanged.',
         design='§5 C12'),
     'C13': dict(
         technique='explicit-state exploration of observer histories, buffer-event histories and '
@@ -151,7 +151,7 @@ CHECKS = {
              'lists of length 1-2 over 4 codes, every combination of two (thorough: three) deviating sections; '
              'ja3() == the published algorithm applied to the wire bytes by an independent reader, and unchanged by '
              'compose+parse. Known findings are matched by deviation, not by input.'
-             ' Pristine-interpreter histories: a 44-hello panel alone versus after the seeds of every single TLS class and after all of them in both orders.',
+             ' Pristine-interpreter histories: a 44-hello panel alone versus after the seeds of every single TLS class and after all of them in both orders. Every number 0..255 as a one-octet code and as a two-octet code in one fresh process, both orders.',
         design='§5 C15'),
     'C16': dict(
         technique='exhaustive enumeration of KEXINIT / key wire forms against reference digests',
